@@ -95,7 +95,9 @@ def main():
   n_models = 1500 if tier == 'thorough' else 120
   if '--replay' not in sys.argv:
     for k in range(n_models):
-      mb, info = gg.gen_model(rng, max_ops=rng.choice([3, 5, 8, 10]))
+      # every 8th model: several ops the quantizer does not know that share one constant
+      ow = (['MAXIMUM'] * 4 + gg.SUPPORTED) if k % 8 == 5 else None
+      mb, info = gg.gen_model(rng, max_ops=rng.choice([3, 5, 8, 10]), op_weights=ow)
       for name in ship:
         cases.append((mb, name))
   for mb, name in cases:
